@@ -40,7 +40,8 @@ def observe_pairs(rep, rng, tier):
     noprobe = meshes.make_device(random.Random(1), holes=1, terminals=2, max_edge_length=1.0, probe_points=True)
     variants = [
         dict(save_every=1), dict(save_every=3), dict(save_every=7), dict(save_every=50),
-        dict(save_every=3, output="temp"), dict(save_every=3, progress_interval=5),
+        dict(save_every=3, output="temp"), dict(save_every=3, progress_interval=5), dict(save_every=3, progress_interval=0),
+        dict(save_every=7, progress_interval=1),
         dict(save_every=4, probes=False),
     ]
     physics = [
